@@ -199,6 +199,14 @@ func runC17(c *fw.Ctx, idx int) fw.Result {
 			if eh == 0 || DA[eh] != string(model.Upper(ch)) {
 				res.Fail("encode-decode-hardgaps", fmt.Sprintf("decode(encodeHardGaps(%q)) = %q", ch, DA[eh]), nil, nil)
 			}
+			// record-level decoding of either gap encoding
+			for _, code := range []byte{e, eh} {
+				rec := fastaio.EncodedFastaRecord{ID: "x", Seq: []byte{code, code}}
+				want := string(model.Upper(ch)) + string(model.Upper(ch))
+				if d := rec.Decode().Seq; d != want || encoding.DecodeToString([]byte{code, code}) != want {
+					res.Fail("record-decode", fmt.Sprintf("EncodedFastaRecord.Decode / DecodeToString of code %d (%q) gives %q / %q, expected %q", code, ch, d, encoding.DecodeToString([]byte{code, code}), want), nil, nil)
+				}
+			}
 			if ch != '-' && eh != e {
 				res.Fail("encode-hardgaps", fmt.Sprintf("hard-gap encoding of %q differs from the soft one", ch), nil, nil)
 			}
